@@ -6,6 +6,7 @@ what docs/api/schemas/*.json and the Go struct tags say now.
 -/
 import LfsModel.GenApi
 import LfsModel.ApiReq
+import LfsModel.UrlEscape
 
 namespace C18
 open Api ApiReq
@@ -193,5 +194,24 @@ theorem omitted_transfer_means_basic (avail : List String) (hb : "basic" ∈ ava
   simp [resolveAdapter, hn]
 
 example : adapterAfter ["basic", "tus"] none ["tus", ""] = some "basic" := by decide
+
+/-! ### the unlock URL: the lock id is one path segment, whatever bytes the server put into it -/
+
+/-- no byte of the escaped id can end the segment or start a query or a fragment -/
+theorem unlock_id_is_one_segment (id : UrlEsc.Bytes) :
+    ∀ x ∈ UrlEsc.pathEscape id, x ≠ 47 ∧ x ≠ 63 ∧ x ≠ 35 := UrlEsc.escape_nodelim id
+
+/-- the server reads back exactly the id it handed out -/
+theorem unlock_id_round_trip (id : UrlEsc.Bytes) : UrlEsc.pathUnescape (UrlEsc.pathEscape id) = some id :=
+  UrlEsc.unescape_escape id
+
+/-- two different ids never address the same unlock URL -/
+theorem unlock_url_injective (a b : UrlEsc.Bytes) (h : UrlEsc.unlockSuffix a = UrlEsc.unlockSuffix b) : a = b := by
+  unfold UrlEsc.unlockSuffix at h
+  have h1 := List.append_cancel_left (List.append_assoc _ _ _ ▸ (List.append_assoc _ _ _ ▸ h))
+  exact UrlEsc.escape_injective a b (List.append_cancel_right h1)
+
+/-- `a?b#/ ` ↦ `a%3Fb%23%2F%20` -/
+example : UrlEsc.pathEscape [97, 63, 98, 35, 47, 32] = [97, 37, 51, 70, 98, 37, 50, 51, 37, 50, 70, 37, 50, 48] := by decide
 
 end C18
